@@ -92,7 +92,8 @@ def case(draw):
     from harness import econ
     econs = [draw(econ.economy(zones=(1, 1), horizon=(2, 2), gold=False))] if draw(st.sampled_from([True, False])) else []
     ops = []
-    for _ in range(draw(st.integers(3, 10))):
+    from harness import gen
+    for _ in range(draw(st.integers(3, gen.size(10, 20)))):
         k = draw(st.sampled_from(['solve-block', 'reparse', 'solve-block', 'resolve', 'solve-model', 'log-on', 'log-off',
                                   'trace', 'throwaway', 'reparse', 'solve-econ']))
         if k == 'solve-econ':
